@@ -27,13 +27,21 @@ def valid(text: str) -> bool:
     return _parse(text) is not None
 
 
-def _normalise_docstrings(tree: ast.AST) -> None:
+def _docstring_nodes(tree: ast.AST):
+    """String expression statements that open a block: docstrings, and what black treats like them."""
     for node in ast.walk(tree):
-        if isinstance(node, (ast.Module, ast.FunctionDef, ast.AsyncFunctionDef, ast.ClassDef)) and node.body:
-            first = node.body[0]
-            if isinstance(first, ast.Expr) and isinstance(first.value, ast.Constant) and isinstance(first.value.value, str):
-                doc = inspect.cleandoc(first.value.value)
-                first.value.value = "\n".join(line.rstrip() for line in doc.splitlines()).strip()
+        for field in ("body", "orelse", "finalbody"):
+            body = getattr(node, field, None)
+            if isinstance(body, list) and body:
+                first = body[0]
+                if isinstance(first, ast.Expr) and isinstance(first.value, ast.Constant) and isinstance(first.value.value, str):
+                    yield first.value
+
+
+def _normalise_docstrings(tree: ast.AST) -> None:
+    # C11 tolerates whitespace changes inside docstrings (the code formatter normalises them by design)
+    for const in list(_docstring_nodes(tree)):
+        const.value = " ".join(const.value.split())
 
 
 @functools.lru_cache(maxsize=200000)
@@ -51,12 +59,7 @@ def string_constants(text: str) -> Optional[List[str]]:
     tree = _parse(text)
     if tree is None:
         return None
-    doc_ids = set()
-    for node in ast.walk(tree):
-        if isinstance(node, (ast.Module, ast.FunctionDef, ast.AsyncFunctionDef, ast.ClassDef)) and node.body:
-            first = node.body[0]
-            if isinstance(first, ast.Expr) and isinstance(first.value, ast.Constant) and isinstance(first.value.value, str):
-                doc_ids.add(id(first.value))
+    doc_ids = {id(c) for c in _docstring_nodes(tree)}
     out = []
     for node in ast.walk(tree):
         if isinstance(node, ast.Constant) and isinstance(node.value, (str, bytes)) and id(node) not in doc_ids:
